@@ -242,6 +242,8 @@ pub fn reg_event(uid: Uid, call: RegCall, ok: bool, injected: bool) {
                         c.edge_pending = false;
                         if c.child_pending == ChildSt::Gone {
                             c.child = ChildSt::Gone;
+                            // the next registration numbers the remaining sub-sources anew
+                            s.layout_changed_at = d;
                         }
                         c.child_pending = ChildSt::Kept;
                     }
